@@ -88,3 +88,21 @@ Definition assoc_law : Prop := forall a b c, valid a -> valid b -> valid c ->
   toM (prod (prod a b) c) = toM (prod a (prod b c)).
 Definition closed_law : Prop := (forall a b, valid a -> valid b -> valid (prod a b)) /\ (forall a, valid a -> valid (inv a)).
 End Laws.
+
+(* ---- packed lower-triangular inputs (CasADi Sparsity.lower, column-major non-zeros) ---- *)
+Definition lower_idx (n i j : nat) : nat := (j * n - (j * (j - 1)) / 2 + (i - j))%nat.
+Definition lower_get (n : nat) (l : list R) (i j : nat) : R := nth (lower_idx n i j) l 0.
+Definition dense_lower (n : nat) (l : list R) : list R :=
+  mbuild n n (fun i j => if Nat.leb j i then lower_get n l i j else 0).
+Definition dense_sym (n : nat) (l : list R) : list R :=
+  mbuild n n (fun i j => if Nat.leb j i then lower_get n l i j else lower_get n l j i).
+Definition diag_get (n : nat) (M : list R) (k : nat) : R := mget n M k k.
+Definition is_lower (n : nat) (M : list R) : Prop := forall i j, (i < j)%nat -> (j < n)%nat -> mget n M i j = 0.
+Definition is_upper (n : nat) (M : list R) : Prop := forall i j, (j < i)%nat -> (i < n)%nat -> mget n M i j = 0.
+Definition unit_diag (n : nat) (M : list R) : Prop := forall k, (k < n)%nat -> mget n M k k = 1.
+
+Ltac mat_cbv2 :=
+  cbv beta iota zeta delta
+    [mmul mtrans mid madd msub mscale mzero mvec dot norm2 det3 mget mbuild sumf mblockdiag hat3 cross3
+     lower_idx lower_get dense_lower dense_sym diag_get
+     nth seq flat_map map app combine fst snd fold_right Nat.add Nat.mul Nat.sub Nat.div Nat.divmod Nat.eqb Nat.ltb Nat.leb length firstn skipn].
